@@ -32,6 +32,7 @@ RULE = (
     "has a run >= 2, a whitespace element, a span, a second or empty paragraph, or when it is a fault; distinct by "
     "hash of (sheets, options, fault)."
     "Corpus: runs of 1030 equal cells, a cell behind 1025 empty ones, 16384 columns, 1100 equal rows."
+    "Cells with comments (office:annotation), tables without names."
 )
 ASSUMPTIONS = [
     "the encoder vlib/enc_ods.py writes what ODF 1.2 defines (self-tested per case against its own reference "
